@@ -38,7 +38,7 @@ import threadpoolctl
 from hypothesis import strategies as st
 
 from ..engine import Clause, Violation, require
-from ..strategies import edge_sets, seeds, universes
+from ..strategies import seeds, universes
 
 ASSUMPTIONS = [
     "row i of u / of the HySC matrix belongs to the node hypergraph.get_mapping() sends to i "
@@ -51,8 +51,9 @@ ASSUMPTIONS = [
     "definition of the log-likelihood: sum_e A_e log sum_k w[|e|-2,k] prod_{i in e} u[i,k] "
     "- sum_{d=2..D} sum_k w[d-2,k] e_d(u[:,k]), e_d = elementary symmetric polynomial over all "
     "nodes, computed with exact rational arithmetic from the returned floats; the library adds "
-    "1e-20 to u inside the logarithm: the oracle accepts any value between the definition with "
-    "and without that regularisation (+- DEF_TOL); cases where a hyperedge has probability 0 at "
+    "1e-20 to u inside the logarithm (and 1e-300 to the sum over communities): the oracle accepts "
+    "any value between the definition with and without that regularisation (+- DEF_TOL); cases "
+    "where a hyperedge has probability 0 at "
     "the returned parameters (definition = -inf) are excluded and counted",
     "tolerances: ROW_TOL = K*min_value_par + 1e-6; ASC_TOL = 1e-9*(1+|L|); "
     "DEF_TOL = 1e-8*(1+|log part|+|normalisation part|); everything else exact",
@@ -72,33 +73,44 @@ MT = "hypergraphx.communities.hypergraph_mt.model"
 @st.composite
 def hypergraph_cases(draw, tier):
     big = tier != "quick"
-    U = draw(universes(min_size=3, max_size=9 if big else 8))
+    U = draw(universes(min_size=4, max_size=9 if big else 8))
     labels = U["labels"]
     n = len(labels)
-    D = draw(st.integers(2, min(5, n)))
-    edges = draw(edge_sets(n, min_edges=1, max_edges=10 if big else 8, min_size=2, max_size=D))
-    if draw(st.booleans()):
+    # hyperedges live on the first m labels (in the drawn label order, which is neither the
+    # sorted nor the row order); with all_nodes the other labels become isolated nodes
+    m = draw(st.integers(max(2, n - 3), n))
+    D = min(m, draw(st.sampled_from([2, 3, 3, 4, 4, 5, 5])))
+    n_edges = draw(st.integers(1, 10 if big else 8))
+    edges, seen = [], set()
+    for _ in range(n_edges):
+        size = draw(st.sampled_from(list(range(2, D + 1)) + [D]))
+        e = draw(st.lists(st.integers(0, m - 1), min_size=size, max_size=size, unique=True))
+        if frozenset(e) not in seen:
+            seen.add(frozenset(e))
+            edges.append(e)
+    if draw(st.sampled_from([True, False])):
         weights = draw(st.lists(st.integers(1, 9), min_size=len(edges), max_size=len(edges)))
     else:
         weights = None
     covered = len({i for e in edges for i in e})
-    # all universe labels become nodes (those in no hyperedge are isolated), or only the covered
-    all_nodes = draw(st.booleans())
+    all_nodes = draw(st.sampled_from([True, True, False]))
     kmax = min(4 if big else 3, covered)
-    K = draw(st.integers(2, kmax))
+    K = draw(st.sampled_from([k for k in (2, 2, 3, 3, 4) if k <= kmax]))
     return {"kind": U["kind"], "labels": labels, "edges": edges, "weights": weights,
             "all_nodes": all_nodes, "K": K}
 
 
 @st.composite
-def mt_cases(draw, tier, normalizeU=None, min_value_par=None, n_real=(1, 3), two_runs=False):
+def mt_cases(draw, tier, normalizeU=None, min_value_par=None, n_real=(1, 3), ascent=False):
     c = draw(hypergraph_cases(tier))
     c["seed"] = draw(seeds)
-    c["n_real"] = draw(st.integers(*n_real))
-    c["max_iter"] = draw(st.integers(1, 40))
-    c["normalizeU"] = draw(st.booleans()) if normalizeU is None else normalizeU
-    c["baseline_r0"] = draw(st.booleans())
-    c["min_value_par"] = (draw(st.sampled_from([1e-5, 0.0]))
+    c["n_real"] = draw(st.sampled_from(list(range(n_real[0], n_real[1] + 1))))
+    c["max_iter"] = draw(st.integers(3, 40)) if ascent else draw(st.integers(1, 40))
+    c["normalizeU"] = draw(st.sampled_from([False, True])) if normalizeU is None else normalizeU
+    # the spectral start runs into the known finding at once (see PRECISION_LOSS): keep it
+    # in the ascent clause, but less often
+    c["baseline_r0"] = draw(st.sampled_from([False, False, True] if ascent else [False, True]))
+    c["min_value_par"] = (draw(st.sampled_from([0.0, 1e-5]))
                           if min_value_par is None else min_value_par)
     c["verbose"] = draw(st.integers(0, 5)) == 0
     return c
@@ -240,7 +252,7 @@ def esp(values, D):
     return E
 
 
-def loglik_definition(u, w, rows, edges, D, eps):
+def loglik_definition(u, w, rows, edges, D, eps, eps_sum=Fraction(0)):
     """(log part, normalisation part) of the likelihood at (u, w); log part is None when a
     hyperedge has probability zero (only possible for eps = 0)."""
     K = u.shape[1]
@@ -252,6 +264,7 @@ def loglik_definition(u, w, rows, edges, D, eps):
             for n in e:
                 p *= Fraction(float(u[rows[n], k])) + eps
             s += p
+        s += eps_sum
         if s <= 0:
             return None, None
         # log of an exact rational: split mantissa/exponent to stay inside float range
@@ -270,13 +283,14 @@ def _log_fraction(q):
     return math.log(n) - math.log(d)
 
 
-EPS_LIB = Fraction(1e-20)
+EPS_LIB = Fraction(1e-20)    # added by the library to u inside the logarithm
+EPS_SUM_LIB = Fraction(1e-300)  # added by the library to the sum over communities
 
 
 def definition_interval(u, w, rows, edges, D):
     """Values of the definition with and without the library's 1e-20 regularisation."""
     lp0, nm = loglik_definition(u, w, rows, edges, D, Fraction(0))
-    lp1, nm1 = loglik_definition(u, w, rows, edges, D, EPS_LIB)
+    lp1, nm1 = loglik_definition(u, w, rows, edges, D, EPS_LIB, EPS_SUM_LIB)
     return lp0, lp1, nm1
 
 
@@ -568,20 +582,21 @@ def check_hysc(case, ctx):
 
 CLAUSES = [
     Clause("mt_validity", lambda tier: mt_cases(tier), check_validity,
-           quick=60, thorough=500, shards_quick=2,
+           quick=200, thorough=1500, shards_quick=2,
            rule="maximum hyperedge size >= 3 and an isolated node present"),
     Clause("mt_bookkeeping", lambda tier: mt_cases(tier, n_real=(1, 3)), check_bookkeeping,
-           quick=60, thorough=500, shards_quick=2,
+           quick=150, thorough=1000, shards_quick=2,
            rule=">= 2 realisations whose final log-likelihoods differ"),
-    Clause("mt_ascent", lambda tier: mt_cases(tier, normalizeU=False), check_ascent,
-           quick=70, thorough=600, shards_quick=3,
-           rule=">= 5 strict increases of the log-likelihood and maximum hyperedge size >= 3"),
+    Clause("mt_ascent", lambda tier: mt_cases(tier, normalizeU=False, ascent=True), check_ascent,
+           quick=250, thorough=2000, shards_quick=3,
+           rule=">= 5 strict increases of the log-likelihood among the demanded comparisons and "
+                "maximum hyperedge size >= 3"),
     Clause("mt_definition", lambda tier: mt_cases(tier, min_value_par=0.0), check_definition,
-           quick=70, thorough=600, shards_quick=3,
+           quick=250, thorough=2000, shards_quick=3,
            rule="maximum hyperedge size >= 3, max_iter >= 5, definition finite"),
     Clause("mt_determinism", lambda tier: mt_cases(tier, n_real=(1, 2)), check_determinism,
-           quick=40, thorough=300, shards_quick=2,
+           quick=120, thorough=800, shards_quick=2,
            rule="maximum hyperedge size >= 3 or an isolated node present"),
-    Clause("hysc", hysc_cases, check_hysc, quick=150, thorough=1000, shards_quick=2,
+    Clause("hysc", hysc_cases, check_hysc, quick=200, thorough=1500, shards_quick=2,
            rule=">= 2 clusters used and (an isolated node or maximum hyperedge size >= 3)"),
 ]
